@@ -1,6 +1,7 @@
 package main
 
 import (
+	"os"
 	"fmt"
 	"go/token"
 	"go/types"
@@ -49,6 +50,7 @@ type LoopInfo struct {
 	visKey    Sort
 	writes    map[string]bool
 	frameVars []string
+	targets   map[string][]ssa.Value
 }
 
 type deferRec struct {
@@ -267,9 +269,33 @@ func (fr *Frame) rpo() []*ssa.BasicBlock {
 	seen := map[*ssa.BasicBlock]bool{}
 	var post []*ssa.BasicBlock
 	var dfs func(b *ssa.BasicBlock)
+	inner := func(b *ssa.BasicBlock) *LoopInfo {
+		var best *LoopInfo
+		for _, li := range fr.loops {
+			if li.blocks[b] && (best == nil || len(li.blocks) < len(best.blocks)) {
+				best = li
+			}
+		}
+		return best
+	}
 	dfs = func(b *ssa.BasicBlock) {
 		seen[b] = true
+		li := inner(b)
+		// first the successors that leave b's innermost loop, then the others (reverse postorder then
+		// lists a loop's blocks contiguously, before the code after the loop)
+		var order []*ssa.BasicBlock
 		for _, s := range b.Succs {
+			if li != nil && !li.blocks[s] {
+				order = append(order, s)
+			}
+		}
+		for i := len(b.Succs) - 1; i >= 0; i-- {
+			s := b.Succs[i]
+			if li == nil || li.blocks[s] {
+				order = append(order, s)
+			}
+		}
+		for _, s := range order {
 			if isBackEdge(b, s) || seen[s] {
 				continue
 			}
@@ -351,6 +377,9 @@ func (fr *Frame) encodeBody(entryGuard Term, st *State) {
 	fr.edgesIn[fn.Blocks[0]] = []*edge{{cond: entryGuard, st: st}}
 	for _, b := range fr.rpo() {
 		fr.curBlock = b
+		if fr.top {
+			c.curBlk = b
+		}
 		var at Term
 		var cur *State
 		if li, ok := fr.loops[b]; ok {
@@ -377,6 +406,9 @@ func (fr *Frame) encodeBody(entryGuard Term, st *State) {
 			fr.encodeInstr(ins, at, cur)
 		}
 	}
+	if fr.top {
+		c.curBlk = nil
+	}
 }
 
 func (fr *Frame) encodePhi(phi *ssa.Phi, edges []*edge) {
@@ -389,6 +421,9 @@ func (fr *Frame) encodePhi(phi *ssa.Phi, edges []*edge) {
 	sym := c.fresh(fr.id+phiName(phi), c.sortOf(phi.Type()))
 	fr.vals[phi] = sym
 	b := phi.Block()
+	if len(edges) > 0 {
+		fr.assumeAllocated(phi.Type(), sym, edges[0].st)
+	}
 	for _, e := range edges {
 		// find the operand for this predecessor
 		for i, p := range b.Preds {
@@ -415,12 +450,72 @@ func (fr *Frame) addEdge(from, to *ssa.BasicBlock, cond Term, st *State) {
 	fr.edgesIn[to] = append(fr.edgesIn[to], &edge{from: from, cond: cond, st: st})
 }
 
-// loopWrites computes heap variables possibly written inside the loop.
+// loopWrites computes heap variables possibly written inside the loop. For map updates/deletes and
+// field stores whose object is defined outside the loop, the write is recorded as targeted: only
+// that object's entry of the heap array is havocked at the loop head.
 func (fr *Frame) loopWrites(li *LoopInfo) map[string]bool {
+	c := fr.c
 	ws := map[string]bool{}
+	li.targets = map[string][]ssa.Value{}
+	general := map[string]bool{}
+	invariantVal := func(v ssa.Value) bool {
+		switch x := v.(type) {
+		case *ssa.Parameter, *ssa.Const:
+			return true
+		case ssa.Instruction:
+			_, isVal := v.(ssa.Value)
+			return isVal && !li.blocks[x.Block()]
+		}
+		return false
+	}
+	addTarget := func(heap string, v ssa.Value) {
+		for _, o := range li.targets[heap] {
+			if o == v {
+				return
+			}
+		}
+		li.targets[heap] = append(li.targets[heap], v)
+	}
 	for b := range li.blocks {
 		for _, ins := range b.Instrs {
-			fr.instrWrites(ins, ws)
+			one := map[string]bool{}
+			fr.instrWrites(ins, one)
+			for w := range one {
+				ws[w] = true
+			}
+			targeted := false
+			switch x := ins.(type) {
+			case *ssa.MapUpdate:
+				if invariantVal(x.Map) {
+					d, v, _, _ := c.mapHeaps(x.Map.Type())
+					addTarget(d, x.Map)
+					addTarget(v, x.Map)
+					targeted = true
+				}
+			case *ssa.Call:
+				if bi, ok := x.Common().Value.(*ssa.Builtin); ok && bi.Name() == "delete" && invariantVal(x.Common().Args[0]) {
+					d, _, _, _ := c.mapHeaps(x.Common().Args[0].Type())
+					addTarget(d, x.Common().Args[0])
+					targeted = true
+				}
+			case *ssa.Store:
+				if fa, ok := x.Addr.(*ssa.FieldAddr); ok && invariantVal(fa.X) {
+					pt := fa.X.Type().Underlying().(*types.Pointer).Elem()
+					h, _, _ := c.fieldHeap(pt, fa.Field)
+					addTarget(h, fa.X)
+					targeted = true
+				}
+			}
+			if !targeted {
+				for w := range one {
+					general[w] = true
+				}
+			}
+		}
+	}
+	for h := range li.targets {
+		if general[h] {
+			delete(li.targets, h)
 		}
 	}
 	return ws
@@ -507,6 +602,16 @@ func (fr *Frame) enterLoop(li *LoopInfo) (Term, *State) {
 		if _, ok := c.heapSorts[w]; !ok {
 			continue
 		}
+		if tg, ok := li.targets[w]; ok && len(tg) > 0 {
+			// targeted havoc: only the entries of the loop-invariant objects change
+			cur := c.get(stH, w)
+			inner := innerSortOf(c.heapSorts[w])
+			for _, v := range tg {
+				cur = Store(cur, fr.val(v), c.fresh(w+"_obj", inner))
+			}
+			c.set(stH, w, cur)
+			continue
+		}
 		c.havoc(stH, w)
 	}
 	if li.writes["nextRef"] {
@@ -514,6 +619,7 @@ func (fr *Frame) enterLoop(li *LoopInfo) (Term, *State) {
 	}
 	for _, phi := range phis {
 		fr.vals[phi] = c.fresh(fr.id+phiName(phi), c.sortOf(phi.Type()))
+		fr.assumeAllocated(phi.Type(), fr.vals[phi], stH)
 		if isRangeIndexPhi(phi) {
 			// automatic invariant for slice ranges: -1 <= i (index phi starts at -1)
 			c.assume(atEntry, Le(IntLit(-1), fr.vals[phi]))
@@ -535,8 +641,28 @@ func (fr *Frame) enterLoop(li *LoopInfo) (Term, *State) {
 	for _, w := range li.frameVars {
 		c.assume(atEntry, c.frameFormula(stH, w))
 	}
-	// all references stored in havocked heaps are allocated
+	// automatic invariant of a map range whose map type is not written in the loop: visited keys are keys of the map
+	for _, ins := range h.Instrs {
+		if nx, ok := ins.(*ssa.Next); ok && !nx.IsString {
+			if rr, ok := fr.ranges[nx.Iter]; ok {
+				dom, _, ks, _ := c.mapHeaps(rr.mapType)
+				if !li.writes[dom] {
+					c.n++
+					q := fmt.Sprintf("vk!%d", c.n)
+					V := c.get(stH, rr.visited)
+					d := Select(c.get(stH, dom), rr.mapTerm, ArraySort(ks, SBool))
+					c.assume(atEntry, Term{fmt.Sprintf("(forall ((%s %s)) (! (=> (select %s %s) (select %s %s)) :pattern ((select %s %s))))", q, ks, V.S, q, d.S, q, V.S, q), SBool})
+				}
+			}
+		}
+	}
 	return atEntry, stH
+}
+
+func innerSortOf(arr Sort) Sort {
+	// "(Array Int X)" -> X
+	s := string(arr)
+	return Sort(strings.TrimSuffix(strings.TrimPrefix(s, "(Array Int "), ")"))
 }
 
 func isRangeIndexPhi(phi *ssa.Phi) bool {
@@ -796,8 +922,14 @@ func (fr *Frame) lookupLocal(name string, at *ssa.BasicBlock, phiOverride map[*s
 				best, bestAddr = xv, dr.IsAddr
 				continue
 			}
-			// prefer the definition closest to `at` in the dominator tree
-			if bi, ok := best.(ssa.Instruction); ok && defBlock != nil {
+			// prefer the definition closest to `at` in the dominator tree;
+			// block-less values (constants standing for "no definition on this path") lose to any instruction
+			bi, bestIsInstr := best.(ssa.Instruction)
+			if !bestIsInstr && defBlock != nil {
+				best, bestAddr = xv, dr.IsAddr
+				continue
+			}
+			if bestIsInstr && defBlock != nil {
 				if bi.Block().Dominates(defBlock) {
 					best, bestAddr = xv, dr.IsAddr
 				}
@@ -815,6 +947,9 @@ func (fr *Frame) lookupLocal(name string, at *ssa.BasicBlock, phiOverride map[*s
 		if _, isConst := best.(*ssa.Const); !isConst {
 			return TV{}, false
 		}
+	}
+	if os.Getenv("EVDEBUG") != "" {
+		fmt.Fprintf(os.Stderr, "lookupLocal %s -> %s = %s\n", name, best.Name(), fr.val(best).S)
 	}
 	return TV{fr.val(best), best.Type()}, true
 }
